@@ -1,7 +1,7 @@
 from __future__ import annotations
 
 from itertools import chain
-from typing import Awaitable, Callable, cast, Optional, Tuple, Type, Union
+from typing import Awaitable, Callable, cast, List, Optional, Tuple, Type, Union
 
 import h11
 
@@ -235,19 +235,19 @@ class H11Protocol:
                         await self._maybe_recycle()
 
     async def _create_stream(self, request: h11.Request) -> None:
-        upgrade_value = ""
-        connection_value = ""
+        # A header repeated on several lines is one list (RFC 7230 3.2.2)
+        upgrade_tokens: List[str] = []
+        connection_tokens: List[str] = []
         for name, value in request.headers:
             sanitised_name = name.decode("latin1").strip().lower()
             if sanitised_name == "upgrade":
-                upgrade_value = value.decode("latin1").strip()
+                upgrade_tokens.extend(value.decode("latin1").lower().split(","))
             elif sanitised_name == "connection":
-                connection_value = value.decode("latin1").strip()
+                connection_tokens.extend(value.decode("latin1").lower().split(","))
 
-        connection_tokens = connection_value.lower().split(",")
         if (
             any(token.strip() == "upgrade" for token in connection_tokens)
-            and upgrade_value.lower() == "websocket"
+            and any(token.strip() == "websocket" for token in upgrade_tokens)
             and request.method.decode("ascii").upper() == "GET"
         ):
             self.stream = WSStream(
